@@ -20,6 +20,7 @@ import subprocess
 import time
 
 import common
+import c20_ctx as cx
 import c20_files as ff
 import c20_gen as gen
 import c20_proj as proj
@@ -716,6 +717,10 @@ def tree_case(pairs, order, backup, workdir):
       try:
         compile(got, rel, "exec", dont_inherit=True)
         pyi_text = open(os.path.join(pyi_dir, rel + "i")).read()
+        foreign = cx.foreign_imports(py, pyi_text, got)
+        if foreign and not cx.foreign_imports(py, pyi_text, ref):
+          res.append(Finding("tree-import-not-from-own-stub", "%s: merged inside a tree of %d files it gained imports its own stub "
+                             "never mentions: %s" % (rel, len(order), foreign)))
         fs = {f.kind for f in oracle(py, pyi_text, got)} - {f.kind for f in oracle(py, pyi_text, ref)}
         for kk in sorted(fs):
           res.append(Finding("tree-" + kk, "%s: the file written by merge_tree (a tree of %d files) violates the property with "
@@ -850,6 +855,8 @@ def run(res):
     # file-level correspondence: the model of merge_tree / merge_files / the path functions (coq/Merge/Files.v) against the
     # real code in real scratch directories; decides whether the tree follows merge_tree before or after b7143da
     ff.run_leg(res, list(TREE_FIXED) + base[:len(corpus_cases())] + gen_inputs, pool, thorough, oracle)
+    # process level (coq/Merge/Ctx.v): histories of merge_files / merge_tree / main calls and outside writes in one process
+    cx.run_history_leg(res, common.rng(res.seed, "c20-hist"), gen_inputs, pool, thorough, oracle)
   for d in done:
     if d.get("inferred"):
       n_inferred += 1
@@ -883,6 +890,11 @@ def run(res):
   else:
     variant = "as-written" if n_aw >= n_fx else "fixed"
   vbit = 1 if variant == "as-written" else 2
+  # process level: trees whose stubs need different imports, against the model with a context per file / one per tree
+  clean = [(d["py"], d["pyi"]) for d in done if "skip" not in d and d.get("out") is not None and d["out"] != d["py"]
+           and not d.get("findings") and len(d["py"]) + len(d["pyi"]) < 500]
+  cr = common.rng(res.seed, "c20-ctx")
+  cx.run_context_leg(res, cr, cr.sample(clean, min(len(clean), 4)), thorough, oracle, variant)
   res.extra["variant_followed"] = variant
   res.extra["applicable_no_bare_theorems"] = (
       ["no_bare_any_never_refuted", "no_bare_any_never_partial"] if variant == "as-written" else
@@ -994,6 +1006,10 @@ def replay(res, path):
   d = json.load(open(path))["replay"]
   if "ftree" in d:
     return ff.replay_ftree(d, oracle)
+  if "ctxseq" in d:
+    return cx.replay_ctxseq(d, oracle)
+  if "history" in d:
+    return cx.replay_history(d, oracle)
   if "file" in d:
     fm = d["file"]
     fs = file_case(d["py"], d["pyi"], fm["newline"], fm["backup"], fm["entry"],
